@@ -384,11 +384,11 @@ Definition db_step (cfg : defects) (d : db) (o : op) : db * obsx :=
   end.
 
 Definition as_is : defects :=
-  {| d_replay_shadow := true; d_clear_replay := true; d_iter_max := true; d_id_reuse := true;
-     d_double_close := true; d_sizeof_untracked := true; d_meta_seqno := true |}.
+  {| d_replay_shadow := false; d_clear_replay := false; d_iter_max := false; d_id_reuse := true;
+     d_double_close := false; d_sizeof_untracked := true; d_seqno_journal := false |}.
 Definition ideal : defects :=
   {| d_replay_shadow := false; d_clear_replay := false; d_iter_max := false; d_id_reuse := false;
-     d_double_close := false; d_sizeof_untracked := false; d_meta_seqno := false |}.
+     d_double_close := false; d_sizeof_untracked := false; d_seqno_journal := false |}.
 
 Fixpoint run (cfg : defects) (d : db) (ops : list op) : db * list obsx :=
   match ops with
